@@ -8,6 +8,8 @@ CONSTANTS
   Lifecycle = "inline"
   SecondCheck = TRUE
   Filter = TRUE
+  EndKinds = {"deadline"}
+  Honoured = {"cancel", "deadline", "parent"}
   MaxFail = 0
   GiveBack = FALSE
 INVARIANTS TypeOK AtMostOnce NoStaleInvoke OnlyAllocated SeqnoUnique QueueBound HandlersConsistent FilterConsistent NoLoss ExitedIdle InvokedOnlyRegistered
